@@ -105,8 +105,16 @@ func IsKnownSuite(raw string) bool {
 	return ok
 }
 
+// SuiteConfigFromRaws returns the configuration of a registered suite under its
+// name (the zero SuiteConfig for an unknown name). The registry entries do not
+// repeat their key, so the name is filled in here: a configuration without it
+// derives other codes than the suite of that name.
 func SuiteConfigFromRaws(rawSuite string) SuiteConfig {
-	return knownSuites[rawSuite]
+	cfg, ok := knownSuites[rawSuite]
+	if ok {
+		cfg.Raw = rawSuite
+	}
+	return cfg
 }
 
 func (cfg SuiteConfig) Config() SuiteConfig {
